@@ -76,6 +76,11 @@ def int_eval(t, atoms):
     if tag == 'cmp':
         r = bool_eval(t, atoms)
         return None if r is None else int(r)
+    if tag == 'ifexp':
+        c = bool_eval(t[1], atoms)
+        if c is None:
+            return None
+        return int_eval(t[2] if c else t[3], atoms)
     return None
 
 
